@@ -110,6 +110,10 @@ package samlsp
 //@ ensures[C17] index: err == nil ==> result.Index == index
 //@ assert@call[C17] Decode #1 (codec TrackedRequestCodec, signed string) uses cookie *http.Cookie decodes_named_cookie:
 //@    cookie != nil && cookie.Name == t.NamePrefix+index && signed == cookie.Value
+//@ -- and what is returned is what the codec decoded from that cookie's value - the index compared with the requested one is
+//@ -- the index the signed token carries, not one derived from the cookie's name
+//@ assert@return[C17,C04] #each (out *TrackedRequest, rerr error) uses cookie=cookie? *http.Cookie returns_what_was_decoded:
+//@    rerr == nil ==> out != nil && cookie != nil && DecodedTracked(t.Codec, cookie.Value, *out)
 
 //@ contract (CookieRequestTracker).TrackRequest
 //@ requires[cfg] r: r != nil && r.URL != nil && t.Codec != nil && t.ServiceProvider != nil
@@ -185,6 +189,10 @@ package samlsp
 //@ -- source is an environment fault and not counted
 //@ contract randomBytes
 //@ requires n: n >= 0
+//@ -- the bytes are the caller's own: not a scratch buffer that goes back to a pool while the caller still encodes them
+//@ -- (two requests would then share, and overwrite, each other's identifiers)
+//@ ghost func allocatedHereBytes(b []byte) bool
+//@ assert@return[C17] #each (out []byte) own_memory: allocatedHereBytes(out)
 //@ ensures[C17] length: len(result) == n
 //@ assert@call[C17] io.ReadFull #1 (r io.Reader, buf []byte) uses rv []byte fills_all_from_configured_source:
 //@    r == saml.RandReader && sameBytes(buf, rv) && len(buf) == n
